@@ -358,7 +358,7 @@ def split(regexp, string, max_split=0):
         yaql> regex("a.").split("abcadc", maxSplit => 1)
         ["", "cadc"]
     """
-    return regexp.split(string, max_split)
+    return tuple(regexp.split(string, max_split))
 
 
 @specs.parameter('regexp', REGEX_TYPE)
@@ -388,7 +388,7 @@ def split_string(string, regexp, max_split=0):
         yaql> "abcadc".split(regex("a."), maxSplit => 1)
         ["", "cadc"]
     """
-    return regexp.split(string, max_split)
+    return tuple(regexp.split(string, max_split))
 
 
 @specs.parameter('regexp', REGEX_TYPE)
